@@ -542,6 +542,21 @@ def run(ctx):
         ctx.obligation("c-driver ran", False, "rc=%s lines=%d/%d %s" % (r.returncode, len(lines), len(cases), r.stderr[-500:]))
         return
     c_out = [parse_driver_line(l, ctab) for l in lines]
+    # the adding wrapper reb_simulation_add_fmt must add exactly the particle reb_particle_from_fmt returns, and nothing on error
+    addbad = []
+    for i, l in enumerate(lines):
+        f = l.partition("|")[0].split()
+        dN, same = int(f[10]), int(f[11])
+        if dN == -9:
+            continue
+        if (c_out[i][0] == "E" and dN != 0) or (c_out[i][0] == "P" and (dN != 1 or same != 1)):
+            addbad.append(i)
+    if addbad:
+        i = addbad[0]
+        ctx.violation("parser:add_fmt-wrapper", {"kind": "parser", "case": {k: cases[i][k] for k in ("G", "t", "prim", "nsim", "names")},
+                      "vals": {k: (v.hex() if isinstance(v, float) else v) for k, v in cases[i]["vals"].items()},
+                      "reb_particle_from_fmt": str(c_out[i]), "driver_line": lines[i]}, True,
+                      "reb_simulation_add_fmt does not add exactly what reb_particle_from_fmt returns (%d cases): particles added on error, or a different particle" % len(addbad))
     py_out = [L.run_py(c) for c in cases]
     # decisions inside Coq
     jobs = []
